@@ -502,15 +502,28 @@ type shareRow struct {
 	SQL  string `json:"sql"`
 }
 
+// one shared object: the slots it is stored in (sorted, with multiplicity)
+type shareGroup struct {
+	Slots []shareRow `json:"slots"`
+	SQL   string     `json:"sql"`
+	Key   string     `json:"key"`
+}
+
 type shareResult struct {
 	Trees   int        `json:"trees"`
 	Objects int        `json:"objects"`
 	Shared  int        `json:"shared_objects"`
-	Rows    []shareRow `json:"rows"`
-	ValInIf int        `json:"value_nodes_in_interfaces"`
+	Rows    []shareRow   `json:"rows"`
+	Groups  []shareGroup `json:"groups"`
+	ValInIf int          `json:"value_nodes_in_interfaces"`
 }
 
 func sharedSlots(root interface{}, valInIface *int) (rows []shareRow, nobj, nshared int) {
+	rows, _, nobj, nshared = sharedSlotGroups(root, valInIface)
+	return
+}
+
+func sharedSlotGroups(root interface{}, valInIface *int) (rows []shareRow, groups []shareGroup, nobj, nshared int) {
 	type inc struct {
 		t    reflect.Type
 		slot int
@@ -527,25 +540,49 @@ func sharedSlots(root interface{}, valInIface *int) (rows []shareRow, nobj, nsha
 	for _, o := range objs {
 		if len(in[o]) >= 2 {
 			nshared++
+			var g shareGroup
 			for _, e := range in[o] {
-				rows = append(rows, shareRow{Type: e.t.Name(), Tid: ownTypeID[e.t.Name()], Slot: e.slot, Path: e.path})
+				r := shareRow{Type: e.t.Name(), Tid: ownTypeID[e.t.Name()], Slot: e.slot, Path: e.path}
+				rows = append(rows, r)
+				g.Slots = append(g.Slots, r)
 			}
+			sort.Slice(g.Slots, func(i, j int) bool {
+				if g.Slots[i].Tid != g.Slots[j].Tid {
+					return g.Slots[i].Tid < g.Slots[j].Tid
+				}
+				return g.Slots[i].Slot < g.Slots[j].Slot
+			})
+			for _, r := range g.Slots {
+				g.Key += r.Type + "." + r.Path + ";"
+			}
+			groups = append(groups, g)
 		}
 	}
-	return rows, len(objs), nshared
+	return rows, groups, len(objs), nshared
 }
 
 func runOwnShare(sqls []string) shareResult {
 	ownInit()
 	res := shareResult{}
 	seen := map[[2]int]bool{}
+	seenG := map[string]bool{}
 	for _, sql := range sqls {
 		tr, err := gosqlx.Parse(sql)
 		if err != nil || tr == nil {
 			continue
 		}
 		res.Trees++
-		rows, n, ns := sharedSlots(tr, &res.ValInIf)
+		rows, groups, n, ns := sharedSlotGroups(tr, &res.ValInIf)
+		for _, g := range groups {
+			if !seenG[g.Key] {
+				seenG[g.Key] = true
+				g.SQL = sql
+				if len(g.SQL) > 160 {
+					g.SQL = g.SQL[:160] + "..."
+				}
+				res.Groups = append(res.Groups, g)
+			}
+		}
 		res.Objects += n
 		res.Shared += ns
 		for _, r := range rows {
@@ -560,6 +597,7 @@ func runOwnShare(sqls []string) shareResult {
 			}
 		}
 	}
+	sort.Slice(res.Groups, func(i, j int) bool { return res.Groups[i].Key < res.Groups[j].Key })
 	sort.Slice(res.Rows, func(i, j int) bool {
 		if res.Rows[i].Tid != res.Rows[j].Tid {
 			return res.Rows[i].Tid < res.Rows[j].Tid
